@@ -902,7 +902,7 @@ def oracle(case, obs):
   if case.get('kind') == 'algo':
     return _oracle_algo(case, obs)
   out = []
-  _TOLSCALE[0] = min(1.0, 4.0 ** case.get('scale', 0))     # tiny data scales: the absolute part of the tolerance shrinks with them
+  _TOLSCALE[0] = 4.0 ** case.get('scale', 0)     # the absolute part of the tolerance follows the magnitude of the summands (loss ~ scale^2)
   loss, G, r, dr = _closed(case)
   n = len(loss)
   z3 = np.zeros(3)
@@ -1034,6 +1034,8 @@ def encode(case, obs):
     return None
   if case.get('nonfinite'):
     return None     # the Coq model is over finite rationals; these cases are judged by the oracle
+  if case.get('scale', 0) > 0:
+    return None     # large magnitudes: cancellation errors are relative to the summands, not to the result (oracle only)
   if case.get('kind') == 'hyp':
     return None
   if case.get('kind') == 'lowp':
